@@ -504,6 +504,15 @@ func replayPerr(all bool, events string) string {
 	return runPerr(src, mode, evs)
 }
 
+// productions counted on the emitted fragments (the generator's own counters would also count
+// alternatives that were built but not chosen)
+var xgenMarkers = map[string]string{
+	"=> {": "lambda_block", "=> (": "lambda_tuple", "=>": "lambda", " for ": "comprehension_or_for", "!": "errwrap_or_not",
+	"?:": "errwrap_default", "${": "env_or_interp", "`": "raw_or_domaintext", "; ": "matrix_or_stmt_sep", "...": "ellipsis",
+	" in ": "for_in", "<-": "arrow", "goto": "goto", "L1:": "label", "select": "select", "switch": "switch", "km": "unit",
+	"c\"": "cstring", "func": "func", "{}": "empty_braces", ": ": "key_value_or_label", "println ": "command_call", "[": "bracket",
+}
+
 var advOps = []string{"n", "s", "d", "e"}
 
 func advCase(src []byte, r *vh.Rand) {
@@ -694,6 +703,7 @@ var seeds = []string{
 	"x := [1, 2; 3]\n", "x := \"${\n", "x := 1km + 2\n", "echo ${HOME}, $HOME\n", "func (T).+ = (a, b)\n", "func + = (\n", "f x => x\n",
 	"f (x, y) => { x }\n", "var x, y\n", "x..y\n", "x.\n", "x.(type)\n", "x.(\n", "<-\n", "case x:\n", "switch {\ncase\n", "select {\ncase <-c:\n",
 	"if x {\n} else\n", "L:\n", "L: L:\n", "1 = 2\n", "x, := 1\n", "(x, y)\n", "(x, y) = 1\n", "a b c d e f\n", "[]int +\n\"abc",
+	"x => {a: b, c}", "x => { goto L }", "x => { L: for { continue L } }", "var f = (x, y) => { a: b }\n",
 	"x := `\n", "x := '\n", "/*", "x /* y", "\xef\xbb\xbfx", "x\x00y", "\xff", "${", "$", "${x", "${x}", "x := ${x}!\n",
 }
 
@@ -756,6 +766,9 @@ func main() {
 			}
 		}
 	}
+	if os.Getenv("C13_NOSEEDS") != "" { // experiments: does the search find a defect without its seed?
+		inputs = inputs[:1]
+	}
 	nSeeds := len(inputs)
 	for _, cf := range files {
 		inputs = append(inputs, cf.Src)
@@ -789,6 +802,45 @@ func main() {
 			e := entries[(cut+i)%len(entries)]
 			count(e, src[:cut])
 			out.Count("prefix_cases")
+		}
+	}
+	// (g) grammar-directed XGo fragments: unchanged through the expression entries / wrapped as
+	// files through the file and class entries, then token-mutated; they also join the pool that
+	// phase (c) mutates and splices
+	exprEntries, fileEntries := []entry{}, []entry{}
+	for _, e := range entries {
+		if strings.HasPrefix(e.name, "expr:") {
+			exprEntries = append(exprEntries, e)
+		} else {
+			fileEntries = append(fileEntries, e)
+		}
+	}
+	feat := map[string]int{}
+	nFrag := f.N
+	for i := 0; i < nFrag; i++ {
+		rr := r.Fork(300000 + i)
+		frag, isExpr := genFragment(rr, feat)
+		out.Count(map[bool]string{true: "xgen_expr", false: "xgen_stmts"}[isExpr])
+		for marker, name := range xgenMarkers {
+			if strings.Contains(frag, marker) {
+				out.Count("xgen_has_" + name)
+			}
+		}
+		if isExpr {
+			count(exprEntries[rr.Intn(len(exprEntries))], []byte(frag))
+		}
+		file := []byte(wrapFragment(frag, isExpr, rr))
+		count(fileEntries[rr.Intn(len(fileEntries))], file)
+		if i%2 == 0 {
+			m, _ := mutate(file, inputs[rr.Intn(len(inputs))], rr)
+			count(entries[rr.Intn(len(entries))], m)
+			if isExpr {
+				m2, _ := mutate([]byte(frag), file, rr)
+				count(exprEntries[rr.Intn(len(exprEntries))], m2)
+			}
+		}
+		if i%5 == 0 {
+			inputs = append(inputs, file)
 		}
 	}
 	// (c) mutants of corpus files
